@@ -28,7 +28,7 @@ TRUSTED_BASE = [
     "double->float narrowing / float->double widening are the C++ conversions, supplied to the model by the driver (a parameter of the theorems)",
 ]
 ASSUMPTIONS = [
-    "equal answers need a seekable stream (std::stringstream / std::ifstream) or a run whose SetPositions stay in the cached window (T_C10mp_nonseekable_outside); otherwise (known finding F16b) the run ends in ParsingError (SkipValue) or InputOutputError (ext header look-ahead, timestamp, SetPosition; fix 24799d8) after answers identical to memory loading — T_C10mp_nonseekable_no_silent_difference, checked on every non-seekable case",
+    "equal answers need a seekable stream (std::stringstream / std::ifstream) or a run whose SetPositions stay in the cached window (T_C10mp_nonseekable_outside); otherwise (known finding F16b: only BACKWARD seeks across a chunk boundary are left since fix e491e27 made SkipValue read through the value) the run ends in InputOutputError (ext header look-ahead, timestamp, SetPosition rewind; fix 24799d8) after answers identical to memory loading — T_C10mp_nonseekable_no_silent_difference, checked on every non-seekable case",
     "chunk_size >= 8 (it is 256; the test hook uses 8): GetValue<uint64_t> asks ReadSolidBlock for 8 contiguous bytes; refuted below 8 by T_C10mp_stream_equals_memory_anychunk_refuted",
     "input bytes are < 256, the document is shorter than 2^63 bytes, SetPosition is only called with positions inside the document (beyond the end the string reader throws std::invalid_argument and the stream reader returns normally: T_C10mp_stream_equals_memory_anysetpos_refuted)",
     "not modelled: the Offset field / text of the exceptions, mBuffer.reserve of ReadValue(string_view); the reader position after an exception is the final state of the model's run and is compared with the real stream reader on every case (p lines); it differs from the string reader's in the class of T_C10mp_skip_throw_related (same error class)",
@@ -293,7 +293,7 @@ def run_mpstream(ctx, vlib):
                     ns_samples.append(dict(case=c, chunk=k, stream_reader=a, memory_reader=r))
             elif cl != "LOCAL":
                 ns_nonlocal_same += 1
-    classes["mpstream non-seekable: the run ends in ParsingError / InputOutputError where memory loading goes on (a SetPosition left the cached window: F16b at the MsgPack level; answers before it identical)"] = ns_differs
+    classes["mpstream non-seekable: the run ends in InputOutputError where memory loading goes on (a backward SetPosition left the cached window: F16b at the MsgPack level; answers before it identical)"] = ns_differs
     classes["mpstream non-seekable: a SetPosition left the window but the answers are the same"] = ns_nonlocal_same
 
     known_lines = []
